@@ -40,6 +40,9 @@ theorem sumV_perm {l1 l2 : List V3} (h : l1.Perm l2) : sumV l1 = sumV l2 := by
       rw [← V3.add_assoc', ← V3.add_assoc', V3.add_comm' y x]
   | trans _ _ ih1 ih2 => rw [ih1, ih2]
 
+theorem average_perm {l1 l2 : List V3} (h : l1.Perm l2) : average l1 = average l2 := by
+  unfold average; rw [sumV_perm h, h.length_eq]
+
 theorem center_eq_sumV (P : Hex) : P.center = V3.smul (1 / 8) (sumV ((List.range 8).map P)) := by
   unfold Hex.center
   congr 1
@@ -161,5 +164,51 @@ theorem sym48_complete_aux :
     ∀ a7 ∈ List.range 8, imgSet [a4, a5, a6, a7] = true → imgSet [a4, a0, a3, a7] = true →
       imgSet [a7, a6, a2, a3] = true → [a0, a1, a2, a3, a4, a5, a6, a7].Nodup →
       [a0, a1, a2, a3, a4, a5, a6, a7] ∈ sym48 := by decide +kernel
+
+/-! ### only the eight corners matter -/
+
+theorem nb_lt : ∀ i ∈ List.range 8, ∀ k ∈ List.range 3, nb i k < 8 := by decide
+theorem cyc_lt : ∀ s ∈ List.range 6, ∀ k ∈ List.range 4, cyc s k < 8 := by decide
+
+theorem tp_congr {P Q : Hex} (h : ∀ i < 8, P i = Q i) (i : Nat) (hi : i < 8) : tp P i = tp Q i := by
+  have hi' := List.mem_range.mpr hi
+  unfold tp
+  rw [h i hi, h _ (nb_lt i hi' 0 (by decide)), h _ (nb_lt i hi' 1 (by decide)), h _ (nb_lt i hi' 2 (by decide))]
+
+theorem sideNormal_congr {P Q : Hex} (h : ∀ i < 8, P i = Q i) (s : Nat) (hs : s < 6) :
+    sideNormal P s = sideNormal Q s := by
+  have hs' := List.mem_range.mpr hs
+  unfold sideNormal
+  rw [h _ (cyc_lt s hs' 0 (by decide)), h _ (cyc_lt s hs' 1 (by decide)), h _ (cyc_lt s hs' 2 (by decide)),
+    h _ (cyc_lt s hs' 3 (by decide))]
+
+theorem center_congr {P Q : Hex} (h : ∀ i < 8, P i = Q i) : P.center = Q.center := by
+  unfold Hex.center
+  rw [h 0 (by decide), h 1 (by decide), h 2 (by decide), h 3 (by decide), h 4 (by decide), h 5 (by decide),
+    h 6 (by decide), h 7 (by decide)]
+
+theorem canonical_congr {obs ceil : V3} {P Q : Hex} (h : ∀ i < 8, P i = Q i) (hc : Canonical obs ceil P) :
+    Canonical obs ceil Q := by
+  have hcen := center_congr h
+  have hk : ∀ d s, s < 6 → sideKey P d s = sideKey Q d s := by
+    intro d s hs; unfold sideKey; rw [sideNormal_congr h s hs]
+  refine ⟨?_, ?_, ?_⟩
+  · intro s hs
+    have := hc.front s hs
+    have hs6 : s < 6 := by
+      simp only [List.mem_cons, List.not_mem_nil, or_false] at hs
+      rcases hs with rfl | rfl | rfl | rfl | rfl <;> decide
+    rw [hcen, hk _ s hs6, hk _ 4 (by decide)] at this
+    exact this
+  · intro s hs
+    have := hc.top s hs
+    have hs6 : s < 6 := by
+      simp only [List.mem_cons, List.not_mem_nil, or_false] at hs
+      rcases hs with rfl | rfl | rfl <;> decide
+    rw [hcen, hk _ s hs6, hk _ 1 (by decide)] at this
+    exact this
+  · intro i hi
+    rw [← tp_congr h i (List.mem_range.mp hi)]
+    exact hc.rh i hi
 
 end CBV.C18
